@@ -163,6 +163,26 @@ CHECKS = {
         "DESIGN.md section 8, C16",
         "Descendants are computed on the spec, not on the library's graph.",
     ),
+    "C14": (
+        "exploration",
+        "runtime monitoring: pause/resume history driver on the async runner with call-log oracle (nothing downstream ran, handler arguments) and differential against the self-answering run and RefEval",
+        "DAGs with 1-3 interrupts anywhere (multi-output, renamed, async handlers) are driven through every pause/resume history "
+        "under controlled completion orders; at each pause identity, shown value, response keys, absence of downstream invocations "
+        "and exactness of the returned values are checked; the finished history must equal the run whose handlers answer by "
+        "themselves. Nested and sibling-nested interrupts are checked for pause identity.",
+        "DESIGN.md section 8, C14",
+        "Programs where a node upstream of an interrupt first runs on a fallback value are excluded (the interrupt legitimately asks again).",
+    ),
+    "C18": (
+        "exploration",
+        "runtime monitoring: run-history and concurrent-run driver with mutation workloads; identity probes on bound objects and input dicts; deep snapshots of function defaults; thread stress",
+        "Functions that mutate default-valued arguments (also nested mutables, also inside nested graphs) are run in histories of "
+        "2-8 runs across runner instances and kinds, concurrently on one AsyncRunner under the controlled scheduler, and from 6 "
+        "threads with a 10us switch interval; each result must equal the isolated expectation, __defaults__ and the caller's dict "
+        "stay untouched, bound objects arrive by identity, and no value of another run appears in the recorded arguments.",
+        "DESIGN.md section 8, C18",
+        "Expectations are computed from the spec, never from a first run.",
+    ),
 }
 
 NOT_YET = {}
